@@ -8,7 +8,7 @@ from .. import impl
 from ..impl import same
 from ..refmodel import codec
 from ..refmodel.codec import decode, decode_with_mask
-from ..refmodel.types import CHAR, INTS, Cfg, TArr, TChar, TEnum, TField, TInt, TPtr, TStruct, layout, render_field, sizeof
+from ..refmodel.types import FLOATS, CHAR, INTS, Cfg, TArr, TChar, TEnum, TField, TInt, TPtr, TStruct, layout, render_field, sizeof
 from ..runner import JobResult, Violation
 
 ID = "C11"
@@ -30,7 +30,7 @@ MEMBERS = [
     ("u8", INTS["uint8"]), ("u16", INTS["uint16"]), ("u32", INTS["uint32"]), ("u64", INTS["uint64"]), ("i24", INTS["int24"]),
     ("a3", TArr(INTS["uint8"], 3)), ("a4", TArr(INTS["uint8"], 4)), ("w2", TArr(INTS["uint16"], 2)), ("c4", TArr(CHAR, 4)), ("e16", EU16),
     ("sa", INa), ("sb", INb), ("sc", INc), ("sp", INp), ("ANs", ANs), ("ANb", ANb), ("ANn", ANn), ("ANh", ANh), ("a8", TArr(INTS["uint8"], 8)), ("ptr", TPtr(INTS["uint8"])),
-    ("nu", NU), ("snu", SNU),
+    ("nu", NU), ("snu", SNU), ("f32", FLOATS["float"]),
 ]
 
 
@@ -86,6 +86,8 @@ def sample(t, k, cfg):
         return [(0x0102030405060708 * (k + 1)) & m, m, 0][k % 3]
     if isinstance(t, TEnum):
         return [0x0102, 0x7001, 0][k % 3]
+    if t is FLOATS["float"]:
+        return [0.0, -0.0, 1.5][k % 3]
     if isinstance(t, TPtr):
         return [0x11, (1 << (8 * cfg.ptr.size)) - 1, 0][k % 3]
     if isinstance(t, TArr):
@@ -116,6 +118,8 @@ def ops_for(members, cfg):
         if not anon and not _has_union(t):
             for k in (0, 1):
                 ops.append(((n,), t, sample(t, k, cfg)))
+            if isinstance(t, TArr) and not isinstance(t.elem, TChar):
+                ops.append(((n,), t, ("rmw", 0, sample(t.elem, 2, cfg))))
         if isinstance(t, TStruct):
             for f in t.fields:
                 if isinstance(f.type, TStruct):
@@ -211,6 +215,8 @@ def lossy_written_member(members, cfg, size) -> bool:
 
 
 def opname(op):
+    if isinstance(op[2], tuple) and op[2] and op[2][0] == "rmw":
+        return f"rmw:{op[0][0]}[{op[2][1]}]={op[2][2]!r}"
     return ".".join(op[0]) + "=" + repr(op[2])[:40]
 
 
@@ -303,17 +309,34 @@ def explore(members, endian, align, depth, res: JobResult, embed=None):
         seen = set()
 
         def run(hist):
-            if init is None:
-                u = cs.U()
-                buf = bytearray(size)
-            else:
-                s = io.BytesIO(init + b"\xee\xed")
-                u = cs.U(s)
-                if s.tell() != size:
-                    issue("parse:consumed", f"parsing consumed {s.tell()} bytes, size {size}")
-                buf = bytearray(init)
+            try:
+                if init is None:
+                    u = cs.U()
+                    buf = bytearray(size)
+                else:
+                    s = io.BytesIO(init + b"\xee\xed")
+                    u = cs.U(s)
+                    if s.tell() != size:
+                        issue("parse:consumed", f"parsing consumed {s.tell()} bytes, size {size}")
+                    buf = bytearray(init)
+            except Exception as e:  # noqa: BLE001
+                issue("init:raises", f"{iname}: {impl.exc_sig(e)} {e!r}")
+                return None
             for op in hist:
                 path, t, v = op
+                if isinstance(v, tuple) and v and v[0] == "rmw":
+                    # read-modify-write of an array member: arr = u.m; arr[i] = x; u.m = arr   (the very same list object is assigned back)
+                    try:
+                        arr = getattr(u, path[0])
+                        arr[v[1]] = v[2]
+                        cur = impl.norm(arr)
+                        setattr(u, path[0], arr)
+                    except Exception as e:  # noqa: BLE001
+                        issue("assign:raises", f"{iname}: rmw {impl.exc_sig(e)} {e!r}", hist)
+                        return None
+                    apply_model(members, buf, path, cur, cfg)
+                    res.transitions += 1
+                    continue
                 apply_model(members, buf, path, v, cfg)
                 obj = u
                 try:
@@ -341,7 +364,7 @@ def explore(members, endian, align, depth, res: JobResult, embed=None):
                     # differential: a fresh object parsed from the model's bytes equals the reached object
                     try:
                         fresh = cs.U(buf)
-                        if not (fresh == u) or impl.norm(fresh) != impl.norm(u):
+                        if not (fresh == u) or not same(impl.norm(fresh), impl.norm(u)):
                             issue("differential:reached-vs-fresh", f"{iname}: reached {impl.norm(u)} fresh {impl.norm(fresh)}", hist)
                     except Exception as e:  # noqa: BLE001
                         issue("differential:raises", f"{iname}: {impl.exc_sig(e)}", hist)
@@ -356,6 +379,21 @@ def explore(members, endian, align, depth, res: JobResult, embed=None):
                         nxt.append(hist + (op,))
             frontier = nxt
         res.states += len(seen)
+    declared = [n for n, t in members if not is_anon(t)]
+    got_order = [f._name for f in cs.U.__fields__ if not f._name.startswith("__anonymous")]
+    if got_order != declared:
+        issue("fields:reordered", f"after parsing/assigning/dumping, the union's fields are {got_order}, declared {declared}")
+    first = [(n, t) for n, t in members][0]
+    if not is_anon(first[1]) and not _has_union(first[1]) and not isinstance(first[1], TStruct) and not (isinstance(first[1], TArr) and isinstance(first[1].elem, TChar)):
+        try:
+            v = sample(first[1], 1, cfg)
+            u = cs.U(mkimpl(cs, first[1], v))
+            buf = bytearray(size)
+            apply_model(members, buf, (first[0],), v, cfg)
+            res.evaluations += 1
+            check_state(u, bytes(buf), (((first[0] + "(positional)",), first[1], v),), "positional")
+        except Exception as e:  # noqa: BLE001
+            issue("construct:raises", f"U(<first member>): {impl.exc_sig(e)} {e!r}")
     # keyword construction: first given member rebuilds the union
     for n, mt in members:
         if is_anon(mt) or _has_union(mt):
